@@ -10,3 +10,4 @@ open Biogo.Properties.C14
 #print axioms filter_complete_strand
 #print axioms filter_incomplete_pinned
 #print axioms filter_incomplete_flush
+#print axioms filter_incomplete_ticker
